@@ -63,7 +63,9 @@ class _:
     def modifies(o):
         return [("fresh-lists", ROW), ("fresh-lists", TTuple([FRAG, FRAG, INT])), ("alloc",)]
 
-    raises = {"ValueError": lambda o: True}  # any inconsistency is an error (allowed by C01)
+    # the gate is exact: it raises only if the pieces, in coordinate order, do NOT partition the contig (so a set
+    # of pieces that does is never rejected - the repaired defect 54286d9 showed up as exactly such a rejection)
+    raises = {"ValueError": lambda o, n: z3.Not(exact_partition(n.srtd_frags, o.fnd.fragment))}
 
     @staticmethod
     def ghost_exit(o, n, res, st):
@@ -89,12 +91,17 @@ class _:
                 ("chain", z3.Implies(z3.And(v.abut_count == i, ys.len >= 1), z3.And(
                     forall(lambda k: z3.Implies(z3.And(0 <= k, k < i), ys[k].end + 1 == ys[k + 1].start)),
                     ys.cum(i + 1) == ys[i].end - ys[0].start + 1))),
+                # and the other way round: pieces that abut all the way leave all three tallies clean
+                ("clean", z3.Implies(
+                    forall(lambda k: z3.Implies(z3.And(0 <= k, k < i), ys[k].end + 1 == ys[k + 1].start)),
+                    z3.And(v.abut_count == i, v.overlap_count == 0, v.pairs_with_gaps.len == 0))),
                 ("same", ys.same(e.srtd_frags)),
             ])(v.srtd_frags, v._it0),
         ),
         1: LoopSpec(
             kind="for",
-            inv=lambda v, e, o: [("message-grows", z3.Length(v.msg) >= z3.Length(e.msg))],
+            inv=lambda v, e, o: [("message-grows", z3.Length(v.msg) >= z3.Length(e.msg)),
+                                 ("no-gap-no-text", z3.Implies(v.pairs_with_gaps.len == 0, v.msg == e.msg))],
         ),
     }
 
@@ -124,6 +131,7 @@ class _:
                 ("fresh-lists", TRef("OverlapResult")), ("fresh-lists", TTuple([FRAG, FRAG, INT])), ("alloc",), ("ralloc",)]
 
     raises = {"ValueError": lambda o: True}
+    raises_from = {"ValueError": ("qc_sub_fragments", "trim_fragment")}  # only the QC gate and an impossible trim reject
 
     @staticmethod
     def ghost_exit(o, n, res, st):
@@ -422,8 +430,8 @@ class _:
 # between contigs that were not neighbours in the input always uses the join gap" - for the left-over scaffolds built by
 # add_missing_scaffolds_from_input this is a rule about one input row at a time, proved per row:
 #   a contig row that was found by the map adds nothing; a contig row that was not found is appended, preceded by
-#   nothing when the previously appended contig is the row just before it, by the input gap row when exactly that gap row lies
-#   between them, and by the join gap otherwise.
+#   nothing when the previously appended contig is the row just before it, by the input gap rows (all of them, in order)
+#   when only gap rows lie between them, and by the join gap otherwise.
 
 KEY3 = TTuple([STR, INT, INT])
 
@@ -457,18 +465,39 @@ def _leftover_row_post(v, b, e, o):
     old_len = z3.If(ns0.is_none, 0, ns0.val.rows.len if not z3.is_int_value(ns0.val) else 0)
     gap = o.self.default_gap
     sep_none = z3.Or(la0.is_none, la0.val == k - 1)
-    sep_input_gap = z3.And(z3.Not(sep_none), la0.val == k - 2, src[k - 1].is_gap)
-    n_sep = z3.If(sep_none, 0, 1)
+    a = la0.val + 1  # first input row skipped since the contig added last
+    cnt = k - a
+    only_gaps = forall(lambda j: z3.Implies(z3.And(a <= j, j < k), src[j].is_gap))
+    sep_gaps = z3.And(z3.Not(sep_none), only_gaps)
+    sep_join = z3.And(z3.Not(sep_none), z3.Not(only_gaps))
     return [
         ("placed-or-gap-row-adds-nothing", z3.Implies(z3.Not(unfound), z3.And(ns1.is_none == ns0.is_none, la1.is_none == la0.is_none,
                                                                              z3.Implies(z3.Not(ns0.is_none), z3.And(ns1.val.z == ns0.val.z, rows1.len == old_len, la1.val == la0.val))))),
-        ("unplaced-contig-is-kept", z3.Implies(unfound, z3.And(z3.Not(ns1.is_none), z3.Not(la1.is_none), la1.val == k, rows1.len == old_len + n_sep + 1,
+        ("unplaced-contig-is-kept", z3.Implies(unfound, z3.And(z3.Not(ns1.is_none), z3.Not(la1.is_none), la1.val == k,
                                                                rows1[rows1.len - 1].z == r.z, z3.Implies(z3.Not(ns0.is_none), ns1.val.z == ns0.val.z)))),
         ("no-gap-between-input-neighbours", z3.Implies(z3.And(unfound, sep_none), rows1.len == old_len + 1)),
-        ("input-gap-between-the-contigs-it-separated", z3.Implies(z3.And(unfound, sep_input_gap), rows1[old_len].z == src[k - 1].z)),
-        ("join-gap-otherwise", z3.Implies(z3.And(unfound, z3.Not(sep_none), z3.Not(sep_input_gap)), z3.And(z3.Not(gap.is_none), rows1[old_len].z == gap.val.z))),
+        # C08: contigs that were separated by gap rows only keep exactly those gap rows, all of them, in order
+        ("input-gaps-between-the-contigs-they-separated", z3.Implies(z3.And(unfound, sep_gaps), z3.And(
+            rows1.len == old_len + cnt + 1, forall(lambda j: z3.Implies(z3.And(0 <= j, j < cnt), rows1[old_len + j].z == src[a + j].z))))),
+        # C07: contigs that were not neighbours in the input (a placed contig lay between them) are joined by the join gap
+        ("join-gap-otherwise", z3.Implies(z3.And(unfound, sep_join), z3.And(rows1.len == old_len + 2, z3.Not(gap.is_none), rows1[old_len].z == gap.val.z))),
         ("earlier-rows-kept", z3.Implies(z3.And(unfound, z3.Not(ns0.is_none)),
                                          forall(lambda j: z3.Implies(z3.And(0 <= j, j < old_len), rows1[j].z == (ns0.val.rows[j].z if not z3.is_int_value(ns0.val) else rows1[j].z))))),
+    ]
+
+
+def _gap_run_inv(v, e, o):
+    """copying the gap rows that lay between two left-over contigs: the left-over scaffold has grown by exactly the
+    gap rows walked so far"""
+    ns_e, ns = _O(e.top, "new_scffld"), _O(v.top, "new_scffld")
+    j = v._it2
+    sk = v.top.skipped
+    rows_e, rows = ns_e.val.rows, ns.val.rows
+    return [
+        ("counter", z3.And(0 <= j, j <= sk.len)),
+        ("objects", z3.And(z3.Not(ns.is_none), ns.val.z == ns_e.val.z, rows.z == rows_e.z, rows.lo == 0, sk.z == e.top.skipped.z)),
+        ("grown-by-the-gaps-so-far", z3.And(rows.len == rows_e.len + j, forall(lambda m: z3.Implies(z3.And(0 <= m, m < j), rows[rows_e.len + m].z == sk[m].z)))),
+        ("earlier-rows-kept", forall(lambda m: z3.Implies(z3.And(0 <= m, m < rows_e.len), rows[m].z == rows_e[m].z))),
     ]
 
 
@@ -552,7 +581,9 @@ class _:
                                        *[("field", "ScaffoldNamer", f, o.self.scaffold_namer) for f in (
                                            "current_scaffold_name", "current_rank", "current_haplotype", "haplotig_n", "unloc_n", "target_tags", "primary_haplotype", "unloc_scaffolds")],
                                        ("alloc",), ("ralloc",)])
-    raises = {e: (lambda o: True) for e in ("TaggingError", "ValueError", "TypeError", "IndexError")}
+    # naming the left-over scaffold may fail; nothing else may, except a join that is needed while no join gap is configured
+    raises = {"TaggingError": lambda o: True, "ValueError": lambda o: True, "IndexError": lambda o: True, "TypeError": lambda o: o.self.default_gap.is_none}
+    raises_from = {"TaggingError": "make_scaffold_name", "ValueError": "make_scaffold_name", "IndexError": "make_scaffold_name"}
 
     loops = {
         0: LoopSpec(kind="for", iter_src="input_asm.scaffolds", types={"new_scffld": TOpt(TRef("Scaffold")), "last_added_i": TOpt(INT)},
@@ -562,6 +593,8 @@ class _:
                                          ("counter", z3.And(0 <= v._it0, v._it0 <= o.input_asm.scaffolds.len))],
                     frame=lambda v, e: {"$fresh-only": ["LA.Row", "LHI.Row", "LLO.Row", "H.Scaffold.name", "H.Scaffold.rows", "H.Scaffold.tag", "H.Scaffold.haplotype",
                                                         "H.Scaffold.rank", "H.Scaffold.original_name", "H.Scaffold.original_tags", "H.$class"]}),
+        2: LoopSpec(kind="for", inv=_gap_run_inv,
+                    frame=lambda v, e: {"LA.Row": [_O(e.top, "new_scffld").val.rows.z], "LHI.Row": [_O(e.top, "new_scffld").val.rows.z]}),
         100: LoopSpec(kind="for", types={"new_scffld": TOpt(TRef("Scaffold")), "last_added_i": TOpt(INT)}, inv=_leftover_inv, iter_post=_leftover_row_post,
                       frame=lambda v, e: {"$fresh-only": ["LA.Row", "LHI.Row", "LLO.Row", "H.Scaffold.name", "H.Scaffold.rows", "H.Scaffold.tag", "H.Scaffold.haplotype",
                                                           "H.Scaffold.rank", "H.Scaffold.original_name", "H.Scaffold.original_tags", "H.$class"]}),
